@@ -18,8 +18,7 @@ LEVEL_TEXT = ("Deductive, all inputs, on the real sources: CovMonitor (coverage.
               "variant -> reads map has an entry for it, and the index of a read's first variant does not exceed that of its last (dict comprehension, defaultdict(list), "
               "two loops); SPAN_B/SPAN_E are ghost NAMES of those indices, defined at that call. The C++ read set enters through stated input invariants (READSET_OK: "
               "positions within a read strictly increase, get_positions() is the strictly increasing list covering them). "
-              "Assumed (listed in the evidence): PriorityQueue.pop = c_pop, those C++ read-set invariants, SPANCOUNT's two counting axioms and "
-              "additivity over disjoint unions, termination. Bounded stand-in for those and for the phase.py caller: the compiled readselection on all read sets over "
+              "Assumed (listed in the evidence): PriorityQueue.pop = c_pop, those C++ read-set invariants, SPANCOUNT's two counting axioms (its definition), termination; additivity over disjoint unions is discharged as a lemma group (base + step; the induction over the finite set is meta-level). Bounded stand-in for those and for the phase.py caller: the compiled readselection on all read sets over "
               "<= 5 variants x <= 4 reads (plus seeded larger ones) x caps 1-3 x bridging x preferred sources against an independent recount (subset, span coverage <= "
               "k, maximality), and whole --ped runs in which the reads handed to the solver are recounted per family.")
 LEVEL_NOTE = ("Proved: coverage.py, priorityqueue.pyx, readselect.pyx (7 functions) and the budget lemma. Trusted: z3/cvc5, vcgen semantics incl. the Cython lowering, the C++ "
